@@ -1,0 +1,15 @@
+// Verification hooks (deterministic simulation); compiled only with `--cfg maidsafe_safe_network_verif`.
+
+use super::*;
+
+impl SwarmDriver {
+    /// What `handle_req_resp_events` does with an inbound `Cmd::Replicate` apart from acknowledging it
+    /// (the acknowledgement needs a libp2p `ResponseChannel`, which cannot be constructed outside libp2p).
+    pub fn verif_handle_replicate_request(
+        &mut self,
+        holder: NetworkAddress,
+        keys: Vec<(NetworkAddress, RecordType)>,
+    ) {
+        self.add_keys_to_replication_fetcher(holder, keys)
+    }
+}
